@@ -57,7 +57,16 @@ func judgeBuilder(rep *lib.Report, k bdCase) {
 	}
 	var kept []taken
 	echoF, echoL := 0, 0 // finalized lengths after the first / last write of the previous epoch (computed on builders of their own)
+	usesEcho := false
+	for _, o := range k.Ops {
+		if o.O == "EF" || o.O == "EL" {
+			usesEcho = true
+		}
+	}
 	epochEnds := func() {
+		if !usesEcho {
+			return // (no library call of the judge's own between the operations unless the sequence needs the lengths)
+		}
 		echoF, echoL = 0, 0
 		var fb redact.StringBuilder
 		for j, w := range since {
@@ -115,21 +124,26 @@ func judgeBuilder(rep *lib.Report, k bdCase) {
 			continue // judged only at the end: the accessor calls of the judge itself must not sit between the operations
 		}
 		rep.AddEval(1)
+		// the builder under test is read FIRST: the reference builder below runs the same library code, and whatever that
+		// code remembers process-wide (a memo of its last piece of work, say) must still be what the history left
+		got := sb.RedactableString()
+		gotB := string(sb.RedactableBytes())
+		gotLen, gotStr := sb.Len(), sb.String()
 		var fresh redact.StringBuilder
 		for _, w := range since {
 			bdApplyWrite(&fresh, w)
 		}
 		want := fresh.RedactableString()
-		if got := sb.RedactableString(); got != want {
+		if got != want {
 			rep.Violate("builder:not-like-new", fmt.Sprintf("after %s the builder shows %q, a new builder given the writes since the last Reset/Take shows %q", desc(i), got, want), k)
 			return
 		}
-		if got := string(sb.RedactableBytes()); got != string(want) {
-			rep.Violate("builder:accessors-disagree", fmt.Sprintf("after %s RedactableBytes is %q, RedactableString %q", desc(i), got, want), k)
+		if gotB != string(want) {
+			rep.Violate("builder:accessors-disagree", fmt.Sprintf("after %s RedactableBytes is %q, RedactableString %q", desc(i), gotB, want), k)
 			return
 		}
-		if sb.Len() != len(want) || sb.String() != want.StripMarkers() {
-			rep.Violate("builder:len-or-string", fmt.Sprintf("after %s Len()=%d String()=%q for %q", desc(i), sb.Len(), sb.String(), want), k)
+		if gotLen != len(want) || gotStr != want.StripMarkers() {
+			rep.Violate("builder:len-or-string", fmt.Sprintf("after %s Len()=%d String()=%q for %q", desc(i), gotLen, gotStr, want), k)
 			return
 		}
 		for _, t := range kept {
@@ -159,6 +173,59 @@ func builderDrive(args []string) {
 		for _, o := range bdAlphabet {
 			gen(append(prefix, o), d-1, emit)
 		}
+	}
+	// epoch twins: writes, an accessor, Reset / Take, then the SAME writes with every safe text replaced by another of the
+	// same length -- whatever is remembered about the old epoch by array, length and pending bytes fits the new one too
+	writes := []bdOp{{"S", "user="}, {"U", "alice"}, {"U", "x\ny"}, {"U", ""}, {"P", "bobby"}, {"S", "\u2039"}, {"S", "hello "}}
+	twinOf := map[string]string{"user=": "nick=", "\u2039": "\u203a", "hello ": "jello "}
+	var twins []bdCase
+	var genW func(prefix []bdOp, d int)
+	genW = func(prefix []bdOp, d int) {
+		if len(prefix) > 0 {
+			for _, acc := range []string{"LEN", "RS", "RB", "STR", ""} {
+				for _, cut := range []string{"RST", "TKS", "TKB"} {
+					ops := append([]bdOp(nil), prefix...)
+					if acc != "" {
+						ops = append(ops, bdOp{acc, ""})
+					}
+					ops = append(ops, bdOp{cut, ""})
+					for _, w := range prefix {
+						if t, ok := twinOf[w.P]; ok && w.O == "S" {
+							w = bdOp{"S", t}
+						}
+						ops = append(ops, w)
+					}
+					twins = append(twins, bdCase{"builder", ops})
+				}
+			}
+		}
+		if d == 0 {
+			return
+		}
+		for _, o := range writes {
+			genW(append(prefix, o), d-1)
+		}
+	}
+	genW(nil, 3)
+	// a multi-byte character split over two writes right where the array is full: what is written must not depend on
+	// where reallocations fall -- a builder that kept a larger array over Reset shows what a new one shows
+	for _, l := range []int{40, 55, 56, 57, 58, 59, 60, 61, 62, 63, 64, 65, 66, 120, 121, 122, 123, 124, 125, 126, 127, 128, 129, 130, 190, 191, 192, 193, 194} {
+		for _, pre := range [][]bdOp{nil, {{"U", strings.Repeat("x", 300)}, {"RST", ""}}, {{"S", strings.Repeat("y", 700)}, {"RST", ""}}} {
+			for _, kind := range []string{"U", "S"} {
+				ops := append([]bdOp(nil), pre...)
+				ops = append(ops, bdOp{kind, strings.Repeat("a", l) + "\xc3"}, bdOp{kind, "\xa9z"})
+				twins = append(twins, bdCase{"builder", ops})
+				ops2 := append([]bdOp(nil), pre...)
+				ops2 = append(ops2, bdOp{kind, strings.Repeat("a", l) + "\xe2\x80"}, bdOp{kind, "\xbaz"})
+				twins = append(twins, bdCase{"builder", ops2})
+			}
+		}
+	}
+	rep.Count("epoch_twin_and_boundary_sequences", len(twins))
+	// (one after the other, on this goroutine alone: what the library remembers process-wide is then what THIS history left)
+	for _, k := range twins {
+		k := k
+		rep.Guard("builder:panic", k, func() { judgeBuilder(rep, k) })
 	}
 	lib.Parallel(8, func(emit func(bdCase)) { gen(nil, *maxLen, emit) }, func(k bdCase) {
 		rep.Guard("builder:panic", k, func() { judgeBuilder(rep, k) })
